@@ -99,3 +99,15 @@ def register(claim, na):
         "concrete round trip through real JSON + z3 QF_NRA identity of the original and deserialised circuit matrices over all symbol values",
         "DESIGN.md §1 E1, §2 C05",
     )
+    claim(
+        "C03", "model_checking",
+        "Symbolic path exploration of the real Pauli arithmetic: terms and sums carrying z3-symbolic real and imaginary coefficient parts go "
+        "through + - * / ** simplify ==; every tolerance branch (isclose/allclose) forks the explorer with feasibility decided by z3; on each "
+        "path the result's coefficient map is compared string by string with the verifier's own Pauli algebra (derived from the 2x2 matrices), "
+        "which by linear independence of Pauli strings is the denoted-matrix comparison. Term x term is exhaustive over all ordered pairs of "
+        "strings on <= 2 (quick) / 3 (thorough) qubits; sums <= 3 terms incl. duplicates, zero coefficients, the empty sum, constants; scalars on either side.",
+        "Exact-real model of floats (rounding of complex multiplication outside); |coefficient parts| <= 4; scalars concrete; symbolic == decided outside "
+        "the fuzzy band with a constant-hash placeholder, real hashing exercised by ground == instances; z3 unknown -> inconclusive, reported.",
+        "shadow symbolic values through the real code + DFS path explorer with z3 feasibility + per-path z3 obligations (QF_NRA)",
+        "DESIGN.md §1 E2, §2 C03",
+    )
